@@ -41,6 +41,40 @@ def cpu_budget(seconds=CASE_CPU_BUDGET_S):
         signal.signal(signal.SIGVTALRM, old)
 
 
+@contextlib.contextmanager
+def host_settings(kind):
+    """Settings a host application may legitimately have changed before it calls the library - all of them thread-local or
+    interpreter-wide state the library has no business depending on:
+      'decimal'  a short decimal context (3 digits, ROUND_UP), as in money-handling code
+      'clock'    a clock running 3600 times faster (time.monotonic / perf_counter / process_time and their _ns forms): an
+                 hour passes per second, as seen by anything that budgets its work in wall-clock time
+    Restored on exit.  kind None: nothing changes."""
+    if kind == "decimal":
+        import decimal
+
+        with decimal.localcontext() as c:
+            c.prec = 3
+            c.rounding = decimal.ROUND_UP
+            yield
+        return
+    if kind == "clock":
+        import time
+
+        names = ["monotonic", "perf_counter", "process_time"]
+        saved = {n: getattr(time, n) for n in names + [n + "_ns" for n in names]}
+        try:
+            for n in names:
+                real, real_ns = saved[n], saved[n + "_ns"]
+                setattr(time, n, (lambda r: lambda: r() * 3600.0)(real))
+                setattr(time, n + "_ns", (lambda r: lambda: r() * 3600)(real_ns))
+            yield
+        finally:
+            for n, f in saved.items():
+                setattr(time, n, f)
+        return
+    yield
+
+
 class Impl:
     def __init__(self):
         import pyab_experiment.binning.binning as binning
